@@ -110,6 +110,9 @@ func (g *G) Type(d int) string {
 	case 9:
 		return "interface{ M(" + g.Type(d-1) + ") error }"
 	case 10:
+		if g.R.Intn(3) == 0 {
+			return "Pair[" + g.Type(d-1) + ", " + g.Type(d-1) + "]" // IndexListExpr
+		}
 		return "G[" + g.Type(d-1) + "]"
 	default:
 		if g.Pattern {
@@ -195,6 +198,9 @@ func (g *G) Expr(d int, leaves []string) string {
 	case 13:
 		return "func(" + g.Ident() + " " + g.Type(1) + ") " + g.Type(0) + " { return " + g.Expr(d-1, leaves) + " }"
 	case 14:
+		if g.R.Intn(3) == 0 {
+			return "mk[" + g.Type(1) + ", " + g.Type(0) + "](" + g.Expr(d-1, leaves) + ")" // IndexListExpr as callee
+		}
 		return "G[" + g.Type(1) + "](" + g.Expr(d-1, leaves) + ")"
 	case 15:
 		return g.Type(1+g.R.Intn(2)) + "(" + g.Expr(d-1, leaves) + ")"
